@@ -52,7 +52,7 @@ def all_len2():
 def long_lived():
     out = []
     for pool in POOLS:
-        for kind in ("partial", "partial_early", "diff", "diff_early", "partial_y"):
+        for kind in ("partial", "partial_early", "diff", "diff_early", "partial_y", "partial_t"):
             for t in ("e1", "e2", "e3"):
                 for mid in (["at", t, "q"], ["rev", t, "q"], ["at", "s", "q"], ["fwd", "e1" if t != "e1" else "e2", "q"], ["at", t, "m"]):
                     out.append({"pool": pool, "hist": [["mk", "P", kind, t], ["q", "P", "p"], mid, ["q", "P", "p2"]]})
